@@ -168,7 +168,11 @@ impl<K: CacheKey + 'static> MemoryCache<K> {
                 // Remove the entries that are still expired: a concurrent put may
                 // have replaced one since it was collected
                 for key in expired_keys {
+                    #[cfg(feature = "verif-hooks")]
+                    crate::verif_hooks::sched_point("mem.cleanup.next");
                     if let Some((_, entry)) = storage.remove_if(&key, |_, e| e.is_expired()) {
+                        #[cfg(feature = "verif-hooks")]
+                        crate::verif_hooks::sched_point("mem.cleanup.removed");
                         entry_count.fetch_sub(1, Ordering::Relaxed);
                         memory_usage.fetch_sub(entry.size_bytes as u64, Ordering::Relaxed);
                         metrics.record_expiration(entry.size_bytes);
